@@ -196,7 +196,13 @@ func (d *duplexHTTPCall) CloseRead() error {
 		// Even if we can't drain the body, we must close it: the caller is done
 		// with the response.
 		_ = d.response.Body.Close()
-		return wrapIfRSTError(err)
+		if ctxErr := d.ctx.Err(); ctxErr != nil {
+			// Draining failed because the context ended (possibly because
+			// watchContext tore down the request): report the context's error, as
+			// Read does.
+			return wrapIfContextError(ctxErr)
+		}
+		return wrapIfContextError(wrapIfRSTError(err))
 	}
 	return wrapIfRSTError(d.response.Body.Close())
 }
